@@ -2,13 +2,23 @@ module verif/harness
 
 go 1.26
 
-require github.com/imoore76/ldlm v0.0.0
+require (
+	github.com/imoore76/ldlm v0.0.0
+	google.golang.org/grpc v1.79.1
+)
 
 require (
 	github.com/deneonet/benc v1.1.8 // indirect
 	github.com/google/uuid v1.6.0 // indirect
+	github.com/grpc-ecosystem/grpc-gateway/v2 v2.28.0 // indirect
 	golang.org/x/exp v0.0.0-20241204233417-43b7b7cde48d // indirect
+	golang.org/x/net v0.48.0 // indirect
 	golang.org/x/sync v0.19.0 // indirect
+	golang.org/x/sys v0.39.0 // indirect
+	golang.org/x/text v0.34.0 // indirect
+	google.golang.org/genproto/googleapis/api v0.0.0-20260209200024-4cfbd4190f57 // indirect
+	google.golang.org/genproto/googleapis/rpc v0.0.0-20260209200024-4cfbd4190f57 // indirect
+	google.golang.org/protobuf v1.36.11 // indirect
 )
 
 replace github.com/imoore76/ldlm => /repo
